@@ -32,6 +32,8 @@ def load_boltons(root):
 
 
 def main(argv=None):
+    import gc
+    gc.disable()     # no finalizer runs inside a simulated case (simkit/driver.py: safe_run_case)
     ap = argparse.ArgumentParser()
     ap.add_argument('prop', nargs='?')
     ap.add_argument('--tier', default=os.environ.get('VERIF_TIER', 'quick'),
